@@ -51,6 +51,16 @@ def gen(rng, tier, quarantine=()):
         focus = "c0"  # closure variable: the attempt must be refused with OverrideException
         refusal = True
     ops = []
+    # some overriders / probes reach the function along a call path (callsother > plain > x): such a
+    # selector is deeper than one naming the function alone, and both may aim at the same binding
+    via = "callsother" if (qual in ("plain", "aug") and not generated and rng.random() < 0.5) else None
+
+    def levels_for(ctx):
+        lv = [{"fn": qual, "caps": [{"var": c, "as": c} for c in ctx], "sibs": []}]
+        if via and rng.random() < 0.5:
+            lv.insert(0, {"fn": via, "caps": [], "sibs": []})
+        return lv
+
     # overlays (tweak/rewrite) need a tooled function
     need_tool = False
     nover = rng.choice([1, 1, 2, 3])
@@ -61,8 +71,7 @@ def gen(rng, tier, quarantine=()):
         ctx = [n for n in names if n != focus and n not in fnir.get("mutable", ()) and rng.random() < 0.3][:2]
         if "param" in forms.get(focus, ()):
             ctx = [c for c in ctx if "param" not in forms[c]]
-        sel = {"levels": [{"fn": qual, "caps": [{"var": c, "as": c} for c in ctx], "sibs": []}],
-               "focus": {"var": focus, "as": focus}}
+        sel = {"levels": levels_for(ctx), "focus": {"var": focus, "as": focus}}
         how = gen_how(rng, ctx)
         if refusal:
             how = ["const", 5]
@@ -89,8 +98,7 @@ def gen(rng, tier, quarantine=()):
         if not refusal and focus not in ctx and v != focus and rng.random() < 0.5 and not focus.startswith("#") and "." not in focus and focus not in fnir.get("mutable", ()):
             if not ("param" in forms.get(v, ()) and "param" in forms.get(focus, ())):
                 ctx.append(focus)
-        sel = {"levels": [{"fn": qual, "caps": [{"var": c, "as": c} for c in ctx], "sibs": []}],
-               "focus": {"var": v, "as": v}}
+        sel = {"levels": levels_for(ctx), "focus": {"var": v, "as": v}}
         recs.append({"op": "mk", "id": f"q{i}", "kind": "probe", "sels": [sel], "inv": "C04.stream"})
     if need_tool:
         if "no-probe-before-tooling" not in quarantine and rng.random() < 0.2:
@@ -101,9 +109,14 @@ def gen(rng, tier, quarantine=()):
             ops += [{"op": "mk", "id": "pre", "kind": "probe", "sels": [pre], "nojudge": True},
                     {"op": "enter", "id": "pre"}, {"op": "exit", "id": "pre"}]
         ops.append({"op": "tool", "fn": qual, "how": "inplace"})
+        if via:
+            ops.append({"op": "tool", "fn": via, "how": "inplace"})
     rng.shuffle(recs)  # activation order drawn by the scheduler
-    # (an overlay is made after the one it is derived from)
-    ops += sorted(recs, key=lambda r: 1 if r.get("base") else 0)
+    # (an overlay is made, and activated, after the one it is derived from: the two share rule
+    # objects, and with the base activated on top of its derivative the shared rule is on the
+    # handler list twice -- which occurrence counts for "most recently activated" is not stated)
+    recs.sort(key=lambda r: 1 if r.get("base") else 0)
+    ops += recs
     live = []
     # a subscriber of an overridable probe (attached after the override) fails on its k-th event:
     # the failure aborts that call, and must leave nothing behind for the bindings that follow
@@ -135,11 +148,16 @@ def gen(rng, tier, quarantine=()):
         ops.append({"op": "enter", "id": "bad"})
     tl = 24 if tier == "quick" else 48
     for c in range(rng.randint(1, 3) + (2 if failing else 0)):
-        op = call_shape(rng, qual, fnir, "k1")
+        op = call_shape(rng, via, table[via], "k1") if (via and rng.random() < 0.8) else call_shape(rng, qual, fnir, "k1")
         op["tape"] = gen_tape(rng, rng.randint(0, tl), odd=0.3)
         op["faults"] = gen_faults(rng, 30, rng.choice([0, 0, 0, 1]))
         ops.append(op)
-        if live and rng.random() < 0.3:
+        bases = [r.get("base") for r in recs if r.get("base") in live]
+        if bases and rng.random() < 0.5:
+            # the base ends while the overlay derived from it stays
+            live.remove(bases[0])
+            ops.append({"op": "exit", "id": bases[0]})
+        elif live and rng.random() < 0.3:
             # mostly innermost first; overlays and probes may also end in any other order
             ops.append({"op": "exit", "id": live.pop(rng.randrange(len(live)) if rng.random() < 0.4 else -1)})
     sc = {"prog": "forms", "ops": ops, "exact_failures": True}
